@@ -279,6 +279,42 @@ fn golden_files() -> Vec<(String, u64, Vec<u8>, Pairs)> {
     out
 }
 
+/// One large file written by the reference encoder in the given version.
+fn check_big(r: &gen::Recipe, v: &u64, rec: &mut Rec) -> CheckResult {
+    rec.eval();
+    let pairs = r.pairs();
+    let bytes = refcodec::encode(&pairs, *v, 0, Policy { share: true, use_otn: true, wide: false });
+    let f = fst::raw::Fst::new(&bytes[..]).map_err(|e| Fail::new("open-failed", format!("version {} file of {} bytes: {:?}", v, bytes.len(), e)))?;
+    let got = gen::collect_stream(f.stream());
+    vensure!(got == pairs, "stream-mismatch", "version {} file of {} bytes: stream differs from the content", v, bytes.len());
+    let step = (pairs.len() / 1500).max(1);
+    let sample: Pairs = pairs.iter().step_by(step).cloned().collect();
+    let (probes, _) = oracle::probes(&sample, false, &[]);
+    oracle::check_lookups(&bytes, &pairs, &probes).map_err(|f| Fail::new(&f.sig, format!("version {} file of {} bytes: {}", v, bytes.len(), f.msg)))?;
+    if pairs.windows(2).all(|w| w[0].1 < w[1].1) {
+        oracle::check_get_key(&bytes, &pairs, 400).map_err(|f| Fail::new(&f.sig, format!("version {} file of {} bytes: {}", v, bytes.len(), f.msg)))?;
+        rec.class(&format!("get_key_on_v{}_file", v));
+    }
+    for j in 0..60usize {
+        let i = (crate::engine::mix(r.seed, j as u64) % pairs.len() as u64) as usize;
+        let mut lo = pairs[i].0.clone();
+        if j % 2 == 0 {
+            lo.push(0);
+        }
+        let hi = pairs[(i + 1 + j % 30).min(pairs.len() - 1)].0.clone();
+        let b: oracle::Bounds = vec![(if j % 3 == 0 { oracle::Kind::Gt } else { oracle::Kind::Ge }, lo), (oracle::Kind::Le, hi)];
+        let want = oracle::model_range(&pairs, &b);
+        let got = gen::collect_stream(oracle::apply_raw(f.range(), &b));
+        vensure!(got == want, "range-mismatch", "version {} file of {} bytes: range{} differs from the model", v, bytes.len(), oracle::bounds_show(&b));
+    }
+    rec.class(&format!("large_v{}", v));
+    if bytes.len() > 1 << 16 {
+        rec.class("old_version_file_over_64KiB");
+    }
+    rec.nontrivial(H::new().u(r.n).u(r.seed).u(*v).get());
+    Ok(())
+}
+
 pub fn run(e: &Engine) {
     crate::crcref::self_test();
     e.set_rule("cases are (map, format version 1/2/3, writer policy {sharing, one-trans-next, wide packs}, container) encoded by an independent reference encoder, plus committed golden files (v3 from the pinned builder, v1/v2 from the reference encoder) and a header sweep over version values x lengths 0..40; oracle: opens through the container, len/fst_type, verify() = Ok for v3 and ChecksumMissing for v1/v2, query suite (stream, lookups, ranges, searches, set operations) equals the model; sweep: documented error per input, never a panic; non-trivial = version != 3 or a non-Vec container; distinct by (version, container, file digest)");
@@ -318,44 +354,32 @@ pub fn run(e: &Engine) {
         "reference-encoded-maps",
         e.tier.pick(40_000, 1_000_000),
         || {
-            (gen::small_pairs(30, 200), 1u64..=3, gen::type_strategy(), any::<bool>(), any::<bool>(), prop::bool::weighted(0.2), 0u8..8)
-                .prop_map(|(pairs, version, ty, share, use_otn, wide, container)| Case { pairs, version, ty, policy: Policy { share, use_otn, wide }, container })
+            (gen::small_pairs(30, 200), 1u64..=3, gen::type_strategy(), any::<bool>(), any::<bool>(), prop::bool::weighted(0.2), 0u8..8, prop::bool::weighted(0.25))
+                .prop_map(|(mut pairs, version, ty, share, use_otn, wide, container, monotone)| {
+                    if monotone {
+                        // values strictly increasing with the keys: get_key becomes part of the query suite
+                        let mut cur = pairs.first().map(|p| p.1 % 3).unwrap_or(0);
+                        for p in pairs.iter_mut() {
+                            p.1 = cur;
+                            cur += 1 + (p.0.len() as u64 % 3) * 255;
+                        }
+                    }
+                    Case { pairs, version, ty, policy: Policy { share, use_otn, wide }, container }
+                })
         },
         |c| c.to_json(),
         check,
     );
     // larger files in the old versions (2- and 3-byte deltas, wide nodes on the seek path)
     let bigs: Vec<(gen::Recipe, u64)> = (0..e.tier.pick(6u64, 30)).map(|i| (gen::Recipe { kind: (1 + i % 2) as u8, n: 8_000 + i * 9_000, seed: crate::engine::mix(e.seed, 900 + i), fanout: [3u8, 5, 16, 3, 9, 16][(i % 6) as usize], keylen: 9 + (i % 5) as u8, values: (i % 3) as u8 }, 1 + (i % 3))).collect();
-    e.run_list("large-reference-encoded-files", &bigs, |(r, v)| json!({"recipe": r.to_json(), "version": v}), |(r, v), rec| {
-        rec.eval();
-        let pairs = r.pairs();
-        let bytes = refcodec::encode(&pairs, *v, 0, Policy { share: true, use_otn: true, wide: false });
-        let f = fst::raw::Fst::new(&bytes[..]).map_err(|e| Fail::new("open-failed", format!("version {} file of {} bytes: {:?}", v, bytes.len(), e)))?;
-        let got = gen::collect_stream(f.stream());
-        vensure!(got == pairs, "stream-mismatch", "version {} file of {} bytes: stream differs from the content", v, bytes.len());
-        let step = (pairs.len() / 1500).max(1);
-        let sample: Pairs = pairs.iter().step_by(step).cloned().collect();
-        let (probes, _) = oracle::probes(&sample, false, &[]);
-        oracle::check_lookups(&bytes, &pairs, &probes).map_err(|f| Fail::new(&f.sig, format!("version {} file of {} bytes: {}", v, bytes.len(), f.msg)))?;
-        for j in 0..60usize {
-            let i = (crate::engine::mix(r.seed, j as u64) % pairs.len() as u64) as usize;
-            let mut lo = pairs[i].0.clone();
-            if j % 2 == 0 {
-                lo.push(0);
-            }
-            let hi = pairs[(i + 1 + j % 30).min(pairs.len() - 1)].0.clone();
-            let b: oracle::Bounds = vec![(if j % 3 == 0 { oracle::Kind::Gt } else { oracle::Kind::Ge }, lo), (oracle::Kind::Le, hi)];
-            let want = oracle::model_range(&pairs, &b);
-            let got = gen::collect_stream(oracle::apply_raw(f.range(), &b));
-            vensure!(got == want, "range-mismatch", "version {} file of {} bytes: range{} differs from the model", v, bytes.len(), oracle::bounds_show(&b));
+    // wide nodes (> 32 and > 64 transitions) with values increasing in key order, in every version
+    let mut bigs = bigs;
+    for (j, fanout) in [40u8, 100, 200].into_iter().enumerate() {
+        for v in 1..=3u64 {
+            bigs.push((gen::Recipe { kind: 1, n: 6_000, seed: crate::engine::mix(e.seed, 950 + j as u64), fanout, keylen: 6, values: 1 }, v));
         }
-        rec.class(&format!("large_v{}", v));
-        if bytes.len() > 1 << 16 {
-            rec.class("old_version_file_over_64KiB");
-        }
-        rec.nontrivial(H::new().u(r.n).u(r.seed).u(*v).get());
-        Ok(())
-    });
+    }
+    e.run_list("large-reference-encoded-files", &bigs, |(r, v)| json!({"recipe": r.to_json(), "version": v}), |(r, v), rec| check_big(r, v, rec));
     // header sweep: version x length x remainder
     let versions: [u64; 9] = [0, 1, 2, 3, 4, 255, 256, 1 << 32, u64::MAX];
     let seed = e.seed;
@@ -388,7 +412,7 @@ pub fn run(e: &Engine) {
     if e.tier == crate::engine::Tier::Thorough {
         crate::fuzzrun::campaign(e, "reader_versions", 80_000, 700);
     }
-    for cls in ["version_1", "version_2", "version_3", "file_shorter_than_36_bytes", "v1_node_over_32_transitions", "v2_node_over_32_transitions", "container:Mmap", "container:CowBorrowed", "sweep:unsupported_version", "sweep:supported_version_too_short", "sweep:opens", "golden_v1", "golden_v3"] {
+    for cls in ["version_1", "version_2", "version_3", "file_shorter_than_36_bytes", "v1_node_over_32_transitions", "v2_node_over_32_transitions", "container:Mmap", "container:CowBorrowed", "sweep:unsupported_version", "sweep:supported_version_too_short", "sweep:opens", "golden_v1", "golden_v3", "get_key_on_v1_file", "get_key_on_v2_file"] {
         e.require_class(cls, 1);
     }
 }
@@ -408,6 +432,10 @@ pub fn replay(_sub: &str, case: &Value) -> Option<CheckResult> {
                 }
             }
             Ok(())
+        } else if let Some(r) = case.get("recipe") {
+            let r = gen::Recipe::from_json(r).ok_or_else(bad)?;
+            let v = case.get("version").and_then(|x| x.as_u64()).ok_or_else(bad)?;
+            check_big(&r, &v, &mut rec)
         } else {
             check(&Case::from_json(case).ok_or_else(bad)?, &mut rec)
         }
